@@ -97,8 +97,9 @@ def marked_pair_is_ring_closure(r, slash_pairs):
 
 def make_case(rng):
     res = None
+    many = rng.random() < 0.12       # cut (nearly) everywhere: more than ten fragments, two-digit coarse keys
     for _ in range(50):
-        res = S.gen_stereo_molecule(rng, p_ring=0.5)
+        res = S.gen_stereo_molecule(rng, p_ring=0.5, **(dict(n_db=rng.choice([2, 3]), max_extra=14) if many else {}))
         if res is not None:
             break
     if res is None:
@@ -114,6 +115,10 @@ def make_case(rng):
     mode = rng.choice(['db_only', 'single_only', 'both'])
     cut_edges = []
     for e in allowed:
+        if many:
+            if rng.random() < 0.9:
+                cut_edges.append(e)
+            continue
         if (mode == 'db_only' and e not in db) or (mode == 'single_only' and e in db):
             continue
         if rng.random() < 0.5 and len(cut_edges) < 4:
@@ -196,6 +201,8 @@ def make_case(rng):
         if any(any(frozenset((c, nb)) in cut_edges for nb in g[c]) for c in chiral):
             feats.add('cut_next_to_stereocentre')
     feats.add('double_bonds_%d' % len(stereo))
+    if len(comps) >= 11:
+        feats.add('eleven_or_more_fragments')
     if cyclic:
         feats.add('stereo_double_bond_in_ring')
     if bracket_p:
